@@ -178,22 +178,34 @@ func runC05(s *kernel.Sim) {
 			mutations = append(mutations, fmt.Sprintf("flow-reference:%v:resp=%v", c, inResp))
 		}
 	}
-	fd := f.def("a.com/c")
+	flowURL := []string{"a.com/c", "a.com/c", "a.com/c/*"}[tp.Choose(3)] // exact, or everything below it
+	s.Knobs["flow_url"] = flowURL
+	fd := f.def(flowURL)
 	// the flow's own filter may carry method, header, query and status constraints
 	// (the status constraint is consulted on the response side, also on the response
-	// path that follows an early response)
-	if tp.Chance(1, 3) {
+	// path that follows an early response; query constraints parse the request URL)
+	addFilter := func(d *flowDef, tag string) {
+		if !tp.Chance(1, 3) {
+			return
+		}
 		switch tp.Choose(4) {
 		case 0:
-			fd.Status = [][]int{{200}, {500, 503}, {429}}[tp.Choose(3)]
+			d.Status = [][]int{{200}, {500, 503}, {429}}[tp.Choose(3)]
 		case 1:
-			fd.Methods = [][]string{{"GET"}, {"POST"}}[tp.Choose(2)]
+			d.Methods = [][]string{{"GET"}, {"POST"}}[tp.Choose(2)]
 		case 2:
-			fd.Headers = [][2]string{{"x-h", "v1"}}
+			d.Headers = [][2]string{{"x-h", "v1"}}
 		case 3:
-			fd.Query = [][2]string{{"x", []string{"1", "*"}[tp.Choose(2)]}}
+			d.Query = [][2]string{{"x", []string{"1", "*"}[tp.Choose(2)]}}
 		}
-		mutations = append(mutations, fmt.Sprintf("filter:status=%v,methods=%v,headers=%v,query=%v", fd.Status, fd.Methods, fd.Headers, fd.Query))
+		mutations = append(mutations, fmt.Sprintf("%s-filter:status=%v,methods=%v,headers=%v,query=%v", tag, d.Status, d.Methods, d.Headers, d.Query))
+	}
+	addFilter(&fd, "f0")
+	// one run in ten: two flows that both look at the query string of every request below a.com/c
+	queryBoth := tp.Chance(1, 10)
+	if queryBoth {
+		fd.Query, fd.URL, flowURL = [][2]string{{"x", "*"}}, "a.com/c/*", "a.com/c/*"
+		mutations = append(mutations, "both-flows-filter-on-query-params")
 	}
 	yaml := fd.YAML()
 	// textual mutations of the YAML
@@ -218,13 +230,18 @@ func runC05(s *kernel.Sim) {
 		mutations = append(mutations, "duplicate-param")
 	}
 	files := map[string]string{"flows/f0.yaml": yaml}
-	if tp.Chance(1, 3) { // a second flow on the same URL, sometimes broken too
+	if tp.Chance(1, 3) || queryBoth { // a second flow on the same URL, sometimes broken too
 		g := genC04Flow(tp, "f1")
 		if tp.Chance(1, 3) {
 			g.req = append(g.req, c04conn{from: "p1", cond: "hit", to: "p1"})
 			mutations = append(mutations, "f1-self-loop")
 		}
-		files["flows/f1.yaml"] = g.def("a.com/c").YAML()
+		gd := g.def(flowURL)
+		addFilter(&gd, "f1")
+		if queryBoth {
+			gd.Query, gd.URL = [][2]string{{"y", "*"}}, "a.com/c/*"
+		}
+		files["flows/f1.yaml"] = gd.YAML()
 	}
 	quotaW := []int{5, 2, 1, 1, 1, 2}
 	if plausible {
@@ -336,7 +353,7 @@ func runC05(s *kernel.Sim) {
 	}
 	env := &engineEnv{Dir: dir, Stream: st, Shared: newShared()}
 	bodies := []string{"", "{not json", `{"a":1}`, strings.Repeat("x", 70000)}
-	paths := []string{"/c", "/c", "/c/extra", "", "//", "/c?x=1"}
+	paths := []string{"/c", "/c", "/c/extra", "", "//", "/c?x=1", "/c/%zz", "/c/100%", "/c\x7f", "/c?x=1&y=%zz"}
 	for ti := 0; ti < 10 && !s.Failed(); ti++ {
 		hdr := map[string]string{}
 		for _, n := range names {
